@@ -274,6 +274,8 @@ class Analysis:
     self.outs = {}        # bb -> {succ: [State]}
     self.term_states = {}
     self.collapsed = set()
+    self._entry_sig = {}
+    self._sticky = {}
     self._run()
 
   def _note_names(self, p):
@@ -281,6 +283,9 @@ class Analysis:
       return
     path = pkey(p)[1]
     names = tuple(e.get('n', e.get('f')) if isinstance(e, dict) and 'f' in e else None for e in p['p'])
+    keep = [i for i, e in enumerate(path) if e != '*']
+    path = tuple(path[i] for i in keep)
+    names = tuple(names[i] for i in keep)
     for n in range(1, len(path) + 1):
       self.fnames.setdefault(path[-n:], set()).add(tuple(x for x in names[-n:] if x is not None))
 
@@ -289,10 +294,14 @@ class Analysis:
     sy = aff.single() if isinstance(aff, Aff) else None
     if isinstance(sy, tuple) and sy[0] == 'f':
       path = sy[2]
+      base = sy[1]
+      if isinstance(base, tuple) and base[0] in ('phi', 'init'):
+        path = base[-1][1] + path
     elif isinstance(sy, tuple) and sy[0] in ('phi', 'init'):
       path = sy[-1][1]
     else:
       return ()
+    path = tuple(e for e in path if e != '*')
     path = tuple(e for e in path if e != '#d' and e != '#len')
     out = set()
     for n in range(1, len(path) + 1):
@@ -622,7 +631,7 @@ class Analysis:
     return out
 
   # ---------------------------------------------------------------- merge
-  def _merge(self, bb, states, force_loop=None):
+  def _merge(self, bb, states, force_loop=None, sticky=None):
     keys = set()
     for s in states:
       keys |= set(s.m)
@@ -631,6 +640,8 @@ class Analysis:
       vals = [s.m.get(key) for s in states]
       v0 = vals[0]
       same = all(v == v0 for v in vals) and v0 is not None
+      if sticky is not None and key in sticky:
+        same = False
       if same and force_loop is not None and any(self.symdef.get(x) in force_loop for x in v0.syms()):
         same = False
       if same:
@@ -639,6 +650,8 @@ class Analysis:
         sym = ('phi', bb, key)
         self.symdef[sym] = bb
         out.m[key] = Aff.sym(sym)
+        if sticky is not None:
+          sticky.add(key)
     # drop leaf phis whose ancestors are phis too: keep things small but sound
     rk = set()
     for s in states:
@@ -675,7 +688,20 @@ class Analysis:
           if not inc:
             continue
           if bb in self.heads:
-            cur = [self._merge(bb, inc, force_loop=self.loop[bb])]
+            # a loop is solved for one entry state at a time: when the entry changes, what the back edges said under the old
+            # entry is discarded and the phis of this head start afresh; under a fixed entry a key only ever goes value -> phi
+            ent = []
+            back = []
+            for p in self.preds.get(bb, ()):
+              (back if p in self.heads[bb] else ent).extend(self.outs.get(p, {}).get(bb, []))
+            sig = frozenset(s.frozen() for s in ent)
+            if self._entry_sig.get(bb) != sig:
+              self._entry_sig[bb] = sig
+              self._sticky[bb] = set()
+              back = []
+            if not ent:
+              continue
+            cur = [self._merge(bb, ent + back, force_loop=self.loop[bb], sticky=self._sticky[bb])]
           else:
             seen = {}
             for s in inc:
